@@ -5,13 +5,27 @@
 cd "$(dirname "$0")/.."
 V=$(pwd)
 ok=0; miss=0; missed=""
+# optional arguments: only these ids
 for d in seeded/*/; do
   id=$(basename $d)
+  if [ $# -gt 0 ]; then case " $* " in *" $id "*) ;; *) continue ;; esac; fi
   prop=$(python3 -c "import json;print(json.load(open('$d/meta.json'))['property'])")
   T=$(mktemp -d /tmp/sweep-XXXXXX)
   rsync -a --exclude .git /repo/ $T/repo/
   if ! (cd $T/repo && patch -p1 -s < $V/$d/patch.diff); then echo "$id PATCH-FAILS"; rm -rf $T; continue; fi
+  t0=$(date +%s)
   out=$(VERIF_REPO=$T/repo bin/godsim check $prop --tier quick 2>&1); code=$?
+  python3 - "$d/meta.json" "$prop" "$code" "$(( $(date +%s) - t0 ))" "$(echo "$out" | grep -o '"oracle":"[^"]*"' | sort -u | cut -d'"' -f4 | tr '\n' ' ')" "$(echo "$out" | grep -c '^VIOLATION')" <<'PY'
+import json, sys
+path, prop, code, wall, oracles, nv = sys.argv[1:7]
+m = json.load(open(path))
+if int(code) == 1 and not oracles.split() and 'fatal error' in open('/dev/null').read() + '':
+    pass
+m.setdefault('godsim', {})[prop] = {'exit': int(code), 'violation_lines': int(nv), 'oracles': oracles.split(), 'wall_s': float(wall)}
+m['detected_by_owner'] = int(code) == 1
+json.dump(m, open(path, 'w'), indent=1)
+open(path, 'a').write('\n')
+PY
   for f in $(echo "$out" | sed -n 's/.*replay=\(\S*\).*/\1/p'); do rm -f $f; done
   rm -rf $T
   if [ $code -eq 1 ]; then ok=$((ok+1)); echo "$id detected $(echo "$out" | grep -o '"oracle":"[^"]*"' | sort -u | head -3 | tr '\n' ' ')";
